@@ -105,3 +105,14 @@ for p in list(NOT_APPLICABLE):
         del NOT_APPLICABLE[p]
 for e in ENGINES:
     e['serves_properties'] = sorted(CHECKS)
+
+_c('C06', 'model_checking',
+   'exhaustive history search over handshake event sequences plus deviation-bounded stateless schedule search, on the real servers',
+   'Every sequence of up to 2 events (thorough 3; quick adds two complete depth-3 slices) over 15 handshake events (correct, wrong type/payload, oversize, empty, binary, garbage, peer close) x 0-2 queued messages x pending poll, each followed by a recovery suffix (late poll must return everything queued, second handshake must succeed, repeated upgrade must be refused without disturbing the socket), is executed on both real servers and compared with the handshake reference automaton and a delivery ledger; every 1- and 2-event handshake is additionally raced against a concurrent poll and send under all interleavings with up to 1 (thorough 2) deviations; transport configuration cells.',
+   'Zero-time computation; contract-level fake of the threaded WebSocket driver; the real asgi.WebSocket is used on the asyncio side.',
+   'DESIGN.md 5 C06')
+for p in list(NOT_APPLICABLE):
+    if p in CHECKS:
+        del NOT_APPLICABLE[p]
+for e in ENGINES:
+    e['serves_properties'] = sorted(CHECKS)
